@@ -14,4 +14,36 @@ MUTANTS = [
          note="trailing total misses the very last bit (panics on empty: also a failure)"),
     dict(id="c01-idx64-order", prop="C01", file="bitmap/rank.go", old="\t\tidx[i] = n\n\t\tn += int32(bits.OnesCount64(words[i]))\n", new="\t\tn += int32(bits.OnesCount64(words[i] &^ (1 << 62)))\n\t\tidx[i] = n - int32(bits.OnesCount64(words[i] &^ (1 << 62)))\n\t\tn += int32(words[i] >> 62 & 1 & (words[i] >> 61))\n",
          note="bit 62 counted only when bit 61 is also set"),
+    # ---------------------------------------------------------------- C02
+    # Select32 (second occurrence of shared text = Select32; first = select32single which is unexported/unused)
+    dict(id="c02-sel32-halving-31", prop="C02", file="bitmap/select.go", old="base |= 32\n\t\t\tww >>= 32", new="base |= 32\n\t\t\tww >>= 31"),
+    dict(id="c02-sel32-base8", prop="C02", file="bitmap/select.go", old="base |= 16\n", new="base |= 8\n"),
+    dict(id="c02-sel32-lt", prop="C02", file="bitmap/select.go", old="\t\tones = bits.OnesCount16(uint16(ww))\n\n\t\tif ones <= findIth {", new="\t\tones = bits.OnesCount16(uint16(ww))\n\n\t\tif ones < findIth {"),
+    dict(id="c02-sel32-lookup-7f0", prop="C02", file="bitmap/select.go", old="a = int32(select8Lookup[(ww>>5)&(0x7f8)|uint64(findIth-ones)]) + base + 8", new="a = int32(select8Lookup[(ww>>5)&(0x7f0)|uint64(findIth-ones)]) + base + 8"),
+    dict(id="c02-sel32-plus8", prop="C02", file="bitmap/select.go", old="|uint64(findIth-ones)]) + base + 8", new="|uint64(findIth-ones)]) + base + 7"),
+    dict(id="c02-sel32-next-scan-start", prop="C02", file="bitmap/select.go", old="for wordI := a>>6 + 1; wordI < l; wordI++ {", new="for wordI := a>>6 + 2; wordI < l; wordI++ {"),
+    dict(id="c02-sel32-next-minus", prop="C02", file="bitmap/select.go", old="\t\tif w != 0 {\n\t\t\treturn a, wordI<<6 + int32(bits.TrailingZeros64(w))\n\t\t}\n\t}\n\treturn a, l << 6\n}\n\n// IndexSelect32R64", new="\t\tif w != 0 {\n\t\t\treturn a, wordI<<6 - int32(bits.TrailingZeros64(w))\n\t\t}\n\t}\n\treturn a, l << 6\n}\n\n// IndexSelect32R64"),
+    dict(id="c02-sel32-tail", prop="C02", file="bitmap/select.go", old="\treturn a, l << 6\n}\n\n// IndexSelect32R64", new="\treturn a, l<<6 - 1\n}\n\n// IndexSelect32R64"),
+    dict(id="c02-r64-loop-lt", prop="C02", file="bitmap/select.go", old="for ; rankIndex[wordI+1] <= i; wordI++ {", new="for ; rankIndex[wordI+1] < i; wordI++ {"),
+    dict(id="c02-r64-tail", prop="C02", file="bitmap/select.go", old="\treturn a, l << 6\n}\n\n// indexSelectU64", new="\treturn a, l<<6 + 1\n}\n\n// indexSelectU64"),
+    dict(id="c02-r64-next-scan", prop="C02", file="bitmap/select.go", old="\twordI++\n\tfor ; wordI < l; wordI++ {", new="\twordI += 2\n\tfor ; wordI < l; wordI++ {"),
+    dict(id="c02-idx-ith63", prop="C02", file="bitmap/select.go", old="\t\t\tif ith&31 == 0 {\n\t\t\t\tsidx = append(sidx, int32(i))\n\t\t\t}\n\t\t}\n\t}\n\n\t// clone to reduce cap to len\n\tsidx = append(sidx[:0:0], sidx...)\n\treturn sidx\n", new="\t\t\tif ith&63 == 0 || (ith&31 == 0 && ith < 64) {\n\t\t\t\tsidx = append(sidx, int32(i))\n\t\t\t}\n\t\t}\n\t}\n\n\t// clone to reduce cap to len\n\tsidx = append(sidx[:0:0], sidx...)\n\treturn sidx\n", note="checkpoints dropped beyond the 64th one"),
+    dict(id="c02-lookup-xor-equiv", prop="C02", file="bitmap/select.go", old="a = int32(select8Lookup[(ww&0xff)<<3|uint64(findIth)]) + base\n", new="a = int32(select8Lookup[(ww&0xff)<<3^uint64(findIth)]) + base\n", equivalent=True, note="| -> ^ between disjoint bit fields"),
+    dict(id="c02-lookup-table-entry", prop="C02", file="bitmap/select.go", old="select8Lookup[i*8+j] = uint8(x)", new="select8Lookup[i*8+j] = uint8(x)\n\t\t\tif i == 0xb5 && j == 4 {\n\t\t\t\tselect8Lookup[i*8+j] = 6\n\t\t\t}", note="one wrong table entry (correct value 7)"),
+    # ---------------------------------------------------------------- C03
+    dict(id="c03-strict-maskupto", prop="C03", file="bmtree/index.go", old="return int32(idx + uint64(bits.OnesCount64(sz&bitmap.Mask[PathLen(path)])))\n", new="return int32(idx + uint64(bits.OnesCount64(sz&bitmap.MaskUpto[PathLen(path)])))\n"),
+    dict(id="c03-loose-drop-popcount-deep", prop="C03", file="bmtree/index.go", old="return int32(idx + uint64(bits.OnesCount64(sz&bitmap.Mask[PathLen(path)]))), has", new="if PathLen(path) > 8 {\n\t\t\treturn int32(idx + uint64(bits.OnesCount64(sz&bitmap.Mask[PathLen(path)-1]))), has\n\t\t}\n\t\treturn int32(idx + uint64(bits.OnesCount64(sz&bitmap.Mask[PathLen(path)]))), has",
+         note="loose variant only, deep paths only: strict and loose diverge"),
+    dict(id="c03-full-31-tall", prop="C03", file="bmtree/index.go", old="return (int32(path>>32) << 1) + int32(bits.OnesCount64(path^0xffffffff00000000)) - 32\n", new="if height >= 7 {\n\t\t\treturn (int32(path>>32) << 1) + int32(bits.OnesCount64(path^0xffffffff00000000)) - 31\n\t\t}\n\t\treturn (int32(path>>32) << 1) + int32(bits.OnesCount64(path^0xffffffff00000000)) - 32\n",
+         note="full-tree closed form off by one for height >= 7 (never computed by the suite)"),
+    dict(id="c03-has-shift", prop="C03", file="bmtree/index.go", old="has := (bitmapSize >> uint(pl)) & 1", new="has := (bitmapSize >> uint(pl+1)) & 1 | (bitmapSize>>uint(pl))&int32(1-(pl+30)/31)"),
+    dict(id="c03-shiftmulti-tz", prop="C03", file="bmtree/partial_tree.go", old="n := bits.TrailingZeros64(b - 1)", new="n := bits.TrailingZeros64(b-1) &^ (bits.Len64(b) >> 5)",
+         equivalent=True, note="wrong shift only when b has more than 31 bits: never happens"),
+    dict(id="c03-leafonly-tall", prop="C03", file="bmtree/index.go", old="\t\t// only leaf nodes\n\n\t\treturn int32(path >> 32)\n", new="\t\t// only leaf nodes\n\n\t\treturn int32(path>>32) & 0x3fffffff &^ (int32(height) >> 4 << 20)\n", note="leaf-only: bit 20 dropped for height >= 16"),
+    dict(id="c03-contract-e0", prop="C03", file="bmtree/pathcheck.go", old="path&0xc0000000c0000000", new="path&0xe0000000e0000000", note="debug contract rejects valid height-30 paths; invisible to release"),
+    dict(id="c03-contract-height-lt30", prop="C03", file="bmtree/bitmap_check.go", old="must.Be.True(height <= 30)", new="must.Be.True(height < 30)"),
+    dict(id="c03-contract-loose-level", prop="C03", file="bmtree/index.go", old="\t\tbitmapPathMustHaveEqualHeight(bitmapSize, path)\n\t})\n\n\theight := Height(bitmapSize)\n\tsz := uint64(bitmapSize)\n\tpl := PathLen(path)", new="\t\tbitmapPathMustHaveEqualHeight(bitmapSize, path)\n\t\tbitmapMustHaveLevel(bitmapSize, PathLen(path))\n\t})\n\n\theight := Height(bitmapSize)\n\tsz := uint64(bitmapSize)\n\tpl := PathLen(path)",
+         note="over-strict debug contract added to the loose variant"),
+    dict(id="c03-shiftmulti-swap-equiv", prop="C03", file="bmtree/index.go", old="idx := shiftMulti(sz, path>>32, uint64(height))", new="idx := shiftMulti(path>>32, sz, uint64(height))", equivalent=True, note="the sum is symmetric"),
+    dict(id="c03-general-int32-overflow", prop="C03", file="bmtree/partial_tree.go", old="rst += (a >> shift)", new="rst += uint64(uint32(a>>shift) & 0x1fffffff)", note="drops bit 29 of a partial product: only height-30 trees, first step right"),
 ]
